@@ -4,7 +4,7 @@
    an evolution; ReachCore: step_reach_core (parametrised by C01/C02 preservation), append_only.
    ReachFinal (step_reach) needs Proofs/WfProofs.vo and Proofs/ChainProofs.vo; add
    `Proofs.ReachFinal` to the export below once they exist. *)
-From StgV Require Export Proofs.ReachCore.
+From StgV Require Export Proofs.ReachCore Proofs.ReachFinal.
 
 (* Model/Cmd.v leaves N_scope open for its importers; the statements of Properties/C06.v are
    about nat (lengths, oids), so nat_scope is put back on top for files importing this one. *)
